@@ -284,6 +284,8 @@ def check(ctx):
                                         for k, es in w.items() if es})
 
     # count-changing subclass: timestamps follow
+    ctx.require(f"{TRAJ}.reduce_to_ids" in results,
+                f"anchor function vanished: {TRAJ}.reduce_to_ids")
     r_sub = results[f"{TRAJ}.reduce_to_ids"]
 
     # --------------------------------------------------------------- C08.3
